@@ -16,7 +16,7 @@ RULE = ("bounded-exhaustive bracket sequences: every sequence of N leaves from {
 ASSUMPTIONS = ["programs whose only issue is gates after a trailing unmatched prepare_all are not judged (statement ambiguous)",
                "termination of accepted programs is C08's clause: a step-budget overrun here is inconclusive for C12"]
 TIERS = {"quick": {"shards": 8, "budget_s": 240}, "thorough": {"shards": 16, "budget_s": 480}}
-REQUIRE = {"macro-whose-body-is-a-subcircuit-block": 300, "circuits-grown-between-runs": 500, "two-level-macro-programs:G": 200, "two-level-macro-programs:S": 100, "bracket-programs-through-CircuitBuilder": 150, "built-through-CircuitBuilder": 300, "idle-gate-variants": 2000, "loop-count-overridden-programs": 1000, "object-assembled-programs": 2000, "ref-accept": 500, "ref-reject:measure-without-prepare": 100, "ref-reject:gate-outside-subcircuit": 100,
+REQUIRE = {"bracket-programs-built-from-S-expressions": 1000, "macro-whose-body-is-a-subcircuit-block": 300, "circuits-grown-between-runs": 500, "two-level-macro-programs:G": 200, "two-level-macro-programs:S": 100, "bracket-programs-through-CircuitBuilder": 150, "built-through-CircuitBuilder": 300, "idle-gate-variants": 2000, "loop-count-overridden-programs": 1000, "object-assembled-programs": 2000, "ref-accept": 500, "ref-reject:measure-without-prepare": 100, "ref-reject:gate-outside-subcircuit": 100,
            "ref-reject:measure-in-loop-closes-earlier-prepare": 50, "states-compared": 500}
 
 
@@ -24,8 +24,8 @@ def judge(case):
     prog = case_prog(case)
     ov = dict(case.get("ov") or {})
     asm = case.get("assemble")
-    st, s = X.setup(prog, ov or None, assemble=("builder", case.get("bseed", 0)) if asm == "builder" else bool(asm))
-    if st.startswith("skipped:input-rejected:JaqalError") and not asm and X.refused_when_built(prog, ov):
+    st, s = X.setup(prog, ov or None, assemble=("builder", case.get("bseed", 0)) if asm == "builder" else ("build" if asm == "build" else bool(asm)))
+    if st.startswith("skipped:input-rejected:JaqalError") and asm in (None, False, "build") and X.refused_when_built(prog, ov):
         # a well-bracketed, legally nested program over the gate set, refused before it could run
         return "ok", [("rejects-acceptable-program:when-built", {"error": str(s.parse_outcome[2])[:200]})], {"ref": "accept"}
     if st != "ok":
@@ -383,6 +383,10 @@ def shard(ctx):
                 if ms is not None:
                     process(ctx, {"prog": ms, "assemble": "builder", "bseed": ctx.rng.randrange(1 << 30)}, seen, minimise_budget=0)
                     rec.count("macro-whose-body-is-a-subcircuit-block")
+            if j % 6 == 4:
+                # built from the S-expression, subcircuit blocks (empty ones too) directly as loop bodies
+                process(ctx, {"prog": prog, "assemble": "build"}, seen, minimise_budget=0)
+                rec.count("bracket-programs-built-from-S-expressions")
             if j % 5 == 2:
                 process(ctx, {"prog": prog, "grow": ctx.rng.randint(1, 3)}, seen, minimise_budget=0)
                 rec.count("circuits-grown-between-runs")
